@@ -1043,6 +1043,9 @@ CORPUS = [
     [("range", [10, 0, I64_MIN]), ("len", [0]), ("toarr", [0])],
     [("count", []), ("skip", [0, 2**64 - 1]), ("get", [1, 1]), ("skip", [1, 1]), ("get", [3, 0]), ("get", [1, 0])],
     [("range", [-I64_MAX, 3]), ("count", []), ("add", [0, 1]), ("add", [0, 2]), ("arr", [1]), ("add", [4, 2]), ("len", [5])],
+    # Chain + Chain with a three-part right operand: the right-hand midpoints are cumulative, not per-part lengths
+    [("arr", [-1]), ("arr", [0]), ("add", [0, 1]), ("range", [1, 2]), ("range", [2, 4]), ("arr", [4]), ("add", [3, 4]), ("add", [6, 5]),
+     ("add", [2, 7]), ("len", [8]), ("toarr", [8]), ("get", [8, -1]), ("get", [8, 4])],
     [("arr", [1, 2, 3]), ("insert", [0, 3, 9]), ("range", [0]), ("insert", [2, 0, 9]), ("insert", [0, 4, 9]), ("insert", [0, -4, 9])],
     # zip evaluates every argument before the emptiness shortcut (an erroring later argument is not swallowed)
     [("range", [0]), ("arr", [1]), ("take", [1, -1]), ("zip", [0, 2]), ("zip", [0, 1, 2]), ("zip", [0, 1])],
